@@ -438,6 +438,15 @@ Definition manifest_export (c : mbi_class) (x : mbi) (crc : Z) : res (list N) :=
   bind (u32 (m_fwver x)) (fun w2 => bind (u32 total) (fun w3 => bind (u32 flags) (fun w4 =>
   bind (if is_crc then u32 crc else Ok []) (fun w5 => Ok (w0 ++ w1 ++ w2 ++ w3 ++ w4 ++ tzb ++ w5))))))).
 
+(* collect_data of the manifest classes refuses a digest algorithm that differs from the hash belonging to the signing key
+   (get_hash_type_from_signature_size: 64 -> sha256, 96 -> sha384, 132 -> sha512, other sizes -> SPSDKValueError) *)
+Definition digest_guard (c : mbi_class) (x : mbi) (cb : cert) : res unit :=
+  if has c MixinManifestDigest && negb (m_digest x =? 0)
+  then let sg := Z.of_nat (cert_sig cb) in
+       let alg := if sg =? 64 then 1 else if sg =? 96 then 2 else if sg =? 132 then 3 else 0 in
+       if (alg =? 0) || negb (alg =? m_digest x) then Err E_REJECT else Ok tt
+  else Ok tt.
+
 Definition collect_app (c : mbi_class) (x : mbi) : res image :=
   match m_app x with
   | [] => Err E_REJECT
@@ -462,13 +471,14 @@ Definition collect (c : mbi_class) (x : mbi) : res image :=
   | Some ExportMixinAppCertBlockManifest =>
       match m_app x, m_cert x with
       | _ :: _, Some cb =>
+          bind (digest_guard c x cb) (fun _ =>
           bind (update_ivt c x (m_app x) (total_len c x) (app_len c x)) (fun app =>
           bind (cert_export cb 1) (fun cbb =>
           bind (manifest_export c x 0) (fun mf0 =>
           if has c MixinManifestCrc
           then let pre := app ++ cbb ++ mf0 in
                bind (manifest_export c x (Z.of_N (mbi_crc32_mpeg (drop_last 4 pre)))) (fun mf => Ok [app; cbb; mf])
-          else Ok [app; cbb; mf0])))
+          else Ok [app; cbb; mf0]))))
       | _, _ => Err E_REJECT
       end
   | Some ExportMixinAppTrustZoneCertBlockEncrypt =>
